@@ -740,3 +740,325 @@ impl World {
         self.send(&[ix], &[executor])
     }
 }
+
+// ------------------------------------------------------------------------------------------------
+// Shifts, position cuts, market maintenance
+
+use gmsol_store::{ops::shift::CreateShiftParams, states::{Market, Shift}};
+use gmsol_store::states::HasMarketMeta;
+
+impl World {
+    pub fn market_state(&self, market: usize) -> Option<Market> {
+        load(&self.svm, &self.markets[market].market)
+    }
+
+    /// Sorted, de-duplicated token mints of a market (index, long, short).
+    pub fn ordered_tokens(&self, market: usize) -> Vec<Pubkey> {
+        let m = &self.markets[market];
+        let set: std::collections::BTreeSet<Pubkey> =
+            [self.tokens[m.index].mint, self.tokens[m.long].mint, self.tokens[m.short].mint].into_iter().collect();
+        set.into_iter().collect()
+    }
+
+    pub fn create_shift(&mut self, owner: Pubkey, from: usize, to: usize, amount: u64, min_to: u64) -> std::result::Result<Pubkey, (TxError, TxMeta)> {
+        let (f, t) = (self.markets[from].clone(), self.markets[to].clone());
+        let store = self.store;
+        let nonce = self.next_nonce();
+        let shift = pda::find_shift_address(&store, &owner, &nonce, &STORE_PID).0;
+        let ixs = vec![
+            self.prepare_ata_ix(owner, shift, f.market_token),
+            self.prepare_ata_ix(owner, shift, t.market_token),
+            self.prepare_ata_ix(owner, owner, t.market_token),
+            six(
+                sa::CreateShift {
+                    owner,
+                    receiver: owner,
+                    store,
+                    from_market: f.market,
+                    to_market: t.market,
+                    shift,
+                    from_market_token: f.market_token,
+                    to_market_token: t.market_token,
+                    from_market_token_escrow: token::ata(&shift, &f.market_token),
+                    to_market_token_escrow: token::ata(&shift, &t.market_token),
+                    from_market_token_source: token::ata(&owner, &f.market_token),
+                    to_market_token_ata: token::ata(&owner, &t.market_token),
+                    system_program: system_program::ID,
+                    token_program: spl_token::ID,
+                    associated_token_program: associated_token::ID,
+                },
+                si::CreateShift {
+                    nonce,
+                    params: CreateShiftParams {
+                        execution_lamports: EXECUTION_FEE,
+                        from_market_token_amount: amount,
+                        min_to_market_token_amount: min_to,
+                    },
+                },
+            ),
+        ];
+        self.send(&ixs, &[owner]).map(|_| shift)
+    }
+
+    pub fn execute_shift_ix(&self, executor: Pubkey, shift: Pubkey, throw_on_execution_error: bool) -> Option<Instruction> {
+        let s: Shift = load(&self.svm, &shift)?;
+        let (fmt, tmt) = (s.tokens().from_market_token(), s.tokens().to_market_token());
+        let fi = self.markets.iter().position(|m| m.market_token == fmt)?;
+        let ti = self.markets.iter().position(|m| m.market_token == tmt)?;
+        let mut tokens: std::collections::BTreeSet<Pubkey> = self.ordered_tokens(fi).into_iter().collect();
+        tokens.extend(self.ordered_tokens(ti));
+        let tokens: Vec<Pubkey> = tokens.into_iter().collect();
+        let mut ix = six(
+            sa::ExecuteShift {
+                authority: executor,
+                store: self.store,
+                token_map: self.token_map,
+                oracle: self.oracle,
+                from_market: self.markets[fi].market,
+                to_market: self.markets[ti].market,
+                shift,
+                from_market_token: fmt,
+                to_market_token: tmt,
+                from_market_token_escrow: token::ata(&shift, &fmt),
+                to_market_token_escrow: token::ata(&shift, &tmt),
+                from_market_token_vault: self.vault(&fmt),
+                token_program: spl_token::ID,
+                chainlink_program: None,
+                event_authority: self.event_authority(),
+                program: STORE_PID,
+            },
+            si::ExecuteShift { execution_lamports: EXECUTION_FEE, throw_on_execution_error },
+        );
+        ix.accounts.extend(self.feed_metas(&tokens));
+        Some(ix)
+    }
+
+    pub fn execute_shift(&mut self, shift: Pubkey, throw_on_execution_error: bool) -> TxResult {
+        let keeper = self.keeper;
+        let Some(ix) = self.execute_shift_ix(keeper, shift, throw_on_execution_error) else {
+            return Err(harness_err("shift not found"));
+        };
+        self.send(&[ix], &[keeper])
+    }
+
+    pub fn close_shift_ix(&self, executor: Pubkey, shift: Pubkey) -> Option<Instruction> {
+        let s: Shift = load(&self.svm, &shift)?;
+        let owner = *s.header().owner();
+        let receiver = s.header().receiver();
+        let (fmt, tmt) = (s.tokens().from_market_token(), s.tokens().to_market_token());
+        Some(six(
+            sa::CloseShift {
+                executor,
+                store: self.store,
+                store_wallet: self.store_wallet(),
+                owner,
+                receiver,
+                shift,
+                from_market_token: fmt,
+                to_market_token: tmt,
+                from_market_token_escrow: token::ata(&shift, &fmt),
+                to_market_token_escrow: token::ata(&shift, &tmt),
+                from_market_token_ata: token::ata(&owner, &fmt),
+                to_market_token_ata: token::ata(&receiver, &tmt),
+                system_program: system_program::ID,
+                token_program: spl_token::ID,
+                associated_token_program: associated_token::ID,
+                event_authority: self.event_authority(),
+                program: STORE_PID,
+            },
+            si::CloseShift { reason: "test".into() },
+        ))
+    }
+
+    pub fn close_shift(&mut self, executor: Pubkey, shift: Pubkey) -> TxResult {
+        let Some(ix) = self.close_shift_ix(executor, shift) else {
+            return Err(harness_err("shift not found"));
+        };
+        self.send(&[ix], &[executor])
+    }
+
+    /// Instructions for `liquidate` (`adl_size = None`) or `auto_deleverage` of a position; returns
+    /// the instructions and the address of the order account the program creates.
+    pub fn position_cut_ixs(&mut self, executor: Pubkey, position: Pubkey, adl_size: Option<u128>) -> Option<(Vec<Instruction>, Pubkey)> {
+        let p: Position = load(&self.svm, &position)?;
+        let owner = p.owner;
+        let mi = self.markets.iter().position(|m| m.market_token == p.market_token)?;
+        let m = self.markets[mi].clone();
+        let (long_mint, short_mint) = (self.tokens[m.long].mint, self.tokens[m.short].mint);
+        let is_long = p.try_is_long().ok()?;
+        let pnl_token = if is_long { long_mint } else { short_mint };
+        let collateral = p.collateral_token;
+        let ts = self.svm.clock.unix_timestamp;
+        let nonce = self.next_nonce();
+        let order = pda::find_order_address(&self.store, &executor, &nonce, &STORE_PID).0;
+        let holding = self.holding();
+        let event = self.event_buffer(&executor, 0);
+        let mut ixs = vec![
+            self.prepare_ata_ix(executor, order, collateral),
+            self.prepare_ata_ix(executor, order, long_mint),
+            self.prepare_ata_ix(executor, order, short_mint),
+            self.prepare_event_buffer_ix(executor, 0),
+            self.use_claimable_ix(executor, long_mint, owner, ts, 0),
+            self.use_claimable_ix(executor, short_mint, owner, ts, 0),
+            self.use_claimable_ix(executor, pnl_token, holding, ts, 0),
+        ];
+        let accounts = sa::PositionCut {
+            authority: executor,
+            owner,
+            user: self.user_pda(&owner),
+            store: self.store,
+            token_map: self.token_map,
+            oracle: self.oracle,
+            market: m.market,
+            order,
+            position,
+            event,
+            long_token: long_mint,
+            short_token: short_mint,
+            long_token_escrow: token::ata(&order, &long_mint),
+            short_token_escrow: token::ata(&order, &short_mint),
+            long_token_vault: self.vault(&long_mint),
+            short_token_vault: self.vault(&short_mint),
+            claimable_long_token_account_for_user: self.claimable_pda(&long_mint, &owner, ts),
+            claimable_short_token_account_for_user: self.claimable_pda(&short_mint, &owner, ts),
+            claimable_pnl_token_account_for_holding: self.claimable_pda(&pnl_token, &holding, ts),
+            system_program: system_program::ID,
+            token_program: spl_token::ID,
+            associated_token_program: associated_token::ID,
+            chainlink_program: None,
+            event_authority: self.event_authority(),
+            program: STORE_PID,
+        };
+        let mut ix = match adl_size {
+            None => six(accounts, si::Liquidate { nonce, recent_timestamp: ts, execution_fee: EXECUTION_FEE }),
+            Some(size) => six(
+                accounts,
+                si::AutoDeleverage { nonce, recent_timestamp: ts, size_delta_in_usd: size, execution_fee: EXECUTION_FEE },
+            ),
+        };
+        ix.accounts.extend(self.feed_metas(&self.ordered_tokens(mi)));
+        ixs.push(ix);
+        Some((ixs, order))
+    }
+
+    pub fn liquidate(&mut self, position: Pubkey) -> std::result::Result<(TxMeta, Pubkey), (TxError, TxMeta)> {
+        let keeper = self.keeper;
+        let Some((ixs, order)) = self.position_cut_ixs(keeper, position, None) else {
+            return Err(harness_err("position not found"));
+        };
+        self.send(&ixs, &[keeper]).map(|m| (m, order))
+    }
+
+    pub fn auto_deleverage(&mut self, position: Pubkey, size: u128) -> std::result::Result<(TxMeta, Pubkey), (TxError, TxMeta)> {
+        let keeper = self.keeper;
+        let Some((ixs, order)) = self.position_cut_ixs(keeper, position, Some(size)) else {
+            return Err(harness_err("position not found"));
+        };
+        self.send(&ixs, &[keeper]).map(|m| (m, order))
+    }
+
+    pub fn update_adl_state_ix(&self, authority: Pubkey, market: usize, is_long: bool) -> Instruction {
+        let mut ix = six(
+            sa::UpdateAdlState {
+                authority,
+                store: self.store,
+                token_map: self.token_map,
+                oracle: self.oracle,
+                market: self.markets[market].market,
+                chainlink_program: None,
+            },
+            si::UpdateAdlState { is_long },
+        );
+        ix.accounts.extend(self.feed_metas(&self.ordered_tokens(market)));
+        ix
+    }
+
+    pub fn update_fees_state_ix(&self, authority: Pubkey, market: usize) -> Instruction {
+        let mut ix = six(
+            sa::UpdateFeesState {
+                authority,
+                store: self.store,
+                token_map: self.token_map,
+                oracle: self.oracle,
+                market: self.markets[market].market,
+                event_authority: self.event_authority(),
+                program: STORE_PID,
+            },
+            si::UpdateFeesState {},
+        );
+        ix.accounts.extend(self.feed_metas(&self.ordered_tokens(market)));
+        ix
+    }
+
+    pub fn update_market_config_ix(&self, authority: Pubkey, market: usize, key: &str, value: u128) -> Instruction {
+        six(
+            sa::UpdateMarketConfig { authority, store: self.store, market: self.markets[market].market },
+            si::UpdateMarketConfig { key: key.to_string(), value },
+        )
+    }
+
+    pub fn update_market_config_flag_ix(&self, authority: Pubkey, market: usize, key: &str, value: bool) -> Instruction {
+        six(
+            sa::UpdateMarketConfig { authority, store: self.store, market: self.markets[market].market },
+            si::UpdateMarketConfigFlag { key: key.to_string(), value },
+        )
+    }
+
+    pub fn set_market_config(&mut self, market: usize, key: &str, value: u128) -> TxResult {
+        let keeper = self.keeper;
+        let ix = self.update_market_config_ix(keeper, market, key, value);
+        self.send(&[ix], &[keeper])
+    }
+
+    /// `claim_fees_from_market` by the store's receiver (the admin after bootstrap).
+    pub fn claim_fees_ix(&self, authority: Pubkey, market: usize, is_long_token: bool) -> Instruction {
+        let m = &self.markets[market];
+        let mint = if is_long_token { self.tokens[m.long].mint } else { self.tokens[m.short].mint };
+        six(
+            sa::ClaimFeesFromMarket {
+                authority,
+                store: self.store,
+                market: m.market,
+                token_mint: mint,
+                vault: self.vault(&mint),
+                target: token::ata(&authority, &mint),
+                token_program: spl_token::ID,
+                event_authority: self.event_authority(),
+                program: STORE_PID,
+            },
+            si::ClaimFeesFromMarket {},
+        )
+    }
+
+    pub fn market_transfer_in_ix(&self, authority: Pubkey, market: usize, is_long_token: bool, amount: u64) -> Instruction {
+        let m = &self.markets[market];
+        let mint = if is_long_token { self.tokens[m.long].mint } else { self.tokens[m.short].mint };
+        six(
+            sa::MarketTransferIn {
+                authority,
+                from_authority: authority,
+                store: self.store,
+                market: m.market,
+                vault: self.vault(&mint),
+                from: token::ata(&authority, &mint),
+                token_program: spl_token::ID,
+                event_authority: self.event_authority(),
+                program: STORE_PID,
+            },
+            si::MarketTransferIn { amount },
+        )
+    }
+
+    pub fn cancel_order_if_no_position_ix(&self, authority: Pubkey, order: Pubkey) -> Option<Instruction> {
+        let o: Order = load(&self.svm, &order)?;
+        let position = *o.params().position()?;
+        Some(six(
+            sa::CancelOrderIfNoPosition { authority, store: self.store, order, position },
+            si::CancelOrderIfNoPosition {},
+        ))
+    }
+
+    pub fn is_pure(&self, market: usize) -> bool {
+        self.market_state(market).map(|m| m.is_pure()).unwrap_or(false)
+    }
+}
